@@ -1287,7 +1287,22 @@ impl World<'_> {
                 pressure = rng.below(3) as i32 - 1;
             }
             let op = self.random_op(rng, w, pressure);
-            self.exec(&op);
+            let r = self.exec(&op);
+            match op {
+                // C10: probe the freshly drained allocator
+                Op::Drain if r == Out::Ok && rng.chance(2, 3) => {
+                    let class = self.pick_class(rng);
+                    let local = self.pick_local(rng, class);
+                    let probe = match rng.below(4) {
+                        0 | 1 => Op::Get { frame: None, order: 0, class, local },
+                        _ => self.gen_get_at(rng),
+                    };
+                    self.exec(&probe);
+                }
+                // C05 / C07: statistics right after the rebuild
+                Op::Recover | Op::Handoff if r == Out::Ok => self.queries(rng, true),
+                _ => {}
+            }
             if qk > 0 && k % qk == qk - 1 {
                 self.queries(rng, false);
             }
@@ -1296,7 +1311,7 @@ impl World<'_> {
 }
 
 fn suite_random(w: &mut dyn Write, rng: &mut Rng, id: u64, seed: u64, ops: usize, name: &str, weights: &Weights, max_trees: usize) -> u64 {
-    let cfg = pick_cfg(rng, max_trees, name == "random");
+    let cfg = pick_cfg(rng, max_trees, name == "random" || name == "args");
     let mut wd = World::start(w, id, name, seed, cfg);
     let qk = 1 + rng.below(5) as usize;
     if !wd.dead {
@@ -1862,6 +1877,10 @@ fn main() {
                     "recover" => {
                         let wt = Weights { recover: 4, invalid: 1, ..W_RANDOM };
                         suite_random(&mut *w, &mut hr, id, hseed, ops, "recover", &wt, 4)
+                    }
+                    "drain" => {
+                        let wt = Weights { drain: 25, change: 8, invalid: 0, ..W_RANDOM };
+                        suite_random(&mut *w, &mut hr, id, hseed, ops, "drain", &wt, 4)
                     }
                     "pattern" => suite_pattern_one(&mut *w, &mut hr, id, hseed),
                     "exhaust" => suite_exhaust_one(&mut *w, &mut hr, id, hseed),
